@@ -19,6 +19,7 @@ use c18::*;
 use common::*;
 use gc_arena::{GcBuilder, Static};
 use std::alloc::Layout;
+use std::io::Write;
 use types::*;
 
 #[global_allocator]
@@ -277,6 +278,7 @@ fn main() {
         hdr_align: 0,
         ran: 0,
         rng: 0,
+        out: std::io::BufWriter::with_capacity(1 << 20, std::io::stdout()),
     };
     let mut i = 1;
     while i < args.len() {
@@ -323,9 +325,9 @@ fn main() {
     cx.hdr_size = hs;
     cx.hdr_align = ha;
     let word = std::mem::size_of::<usize>();
-    println!("C config {} {} {} {}", isize::MAX, hs, ha, word);
+    let _ = writeln!(cx.out, "C config {} {} {} {}", isize::MAX, hs, ha, word);
     if (hs, ha) != (2 * word, word) {
-        println!("M 0 header probe: a zero-sized align-1 value was allocated with size {hs} align {ha}; GcHeader is two words ({} / {})", 2 * word, word);
+        let _ = writeln!(cx.out, "M 0 header probe: a zero-sized align-1 value was allocated with size {hs} align {ha}; GcHeader is two words ({} / {})", 2 * word, word);
     }
     if prop == "C17" || prop == "all" {
         c17(&mut cx);
@@ -333,5 +335,6 @@ fn main() {
     if prop == "C18" || prop == "all" {
         c18(&mut cx);
     }
-    println!("Z {}", cx.ran);
+    let _ = writeln!(cx.out, "Z {}", cx.ran);
+    let _ = cx.out.flush();
 }
